@@ -38,77 +38,9 @@ func VerifHarness_C06_NotInvolution() {
 }
 
 // The singleton rule governs the criteria of where/exists/all: true keeps, false/empty drops, multi-item is an error.
-func VerifHarness_C06_WhereCriteria() {
-	n := verifrt.Choose("n", verifrt.Bound(2, 3)+1)
-	input := verifItems("it", n, 1)
-	crit := &verifStub{}
-	vals := make([]int, n)
-	for i := 0; i < n; i++ {
-		c, v := verifCriterion("c")
-		crit.r = append(crit.r, c)
-		vals[i] = v
-	}
-	// reference
-	var want system.Collection
-	wantErr := false
-	for i := 0; i < n; i++ {
-		if vals[i] == 3 {
-			wantErr = true
-			break
-		}
-		if vals[i] == 1 {
-			want = append(want, input[i])
-		}
-	}
-	got, err := Where(verifCtx(), input, crit)
-	if wantErr {
-		verifrt.Assert(err != nil, "where-multi-item-criterion-is-error")
-	} else {
-		verifrt.Assert(err == nil && verifSameColl(got, want), "where-keeps-exactly-true-items-in-order")
-	}
-	// exists(p) = where(p).exists()
-	crit.calls = 0
-	ex, err2 := Exists(verifCtx(), input, crit)
-	if wantErr {
-		verifrt.Assert(err2 != nil, "exists-multi-item-criterion-is-error")
-	} else {
-		verifrt.Assert(err2 == nil && verifTV(ex) == b2i(len(want) > 0), "exists-equals-where-exists")
-	}
-	verifrt.Reach("end")
-}
+func VerifHarness_C06_WhereCriteria() { verifWhereCriteria() }
 
-func VerifHarness_C06_AllCriteria() {
-	n := verifrt.Choose("n", verifrt.Bound(2, 3)+1)
-	input := verifItems("it", n, 1)
-	crit := &verifStub{}
-	vals := make([]int, n)
-	for i := 0; i < n; i++ {
-		c, v := verifCriterion("c")
-		crit.r = append(crit.r, c)
-		vals[i] = v
-	}
-	// all(p): true iff p is true for every item; an item whose criterion is empty is not true;
-	// evaluation may stop at the first non-true item, so an error is required only if a multi-item
-	// criterion comes before any false/empty one.
-	want, wantErr := 1, false
-	for i := 0; i < n; i++ {
-		if vals[i] == 3 {
-			wantErr = true
-			break
-		}
-		if vals[i] != 1 {
-			want = 0
-			break
-		}
-	}
-	got, err := All(verifCtx(), input, crit)
-	if wantErr {
-		verifrt.Assert(err != nil, "all-multi-item-criterion-is-error")
-	} else {
-		verifrt.Assert(err == nil && verifTV(got) == want, "all-true-iff-every-criterion-true")
-	}
-	verifrt.Reach("end")
-}
+func VerifHarness_C06_AllCriteria() { verifAllCriteria() }
 
 // iif(criterion, a, b): singleton rule on the criterion; false and empty select the otherwise branch.
 func VerifHarness_C06_Iif() {
